@@ -235,6 +235,47 @@ func findCalls(fn *ssa.Function, id string) []*ssa.Call {
 	return out
 }
 
+// effCall is a call to a given function as seen from a host function: made there directly (Site is the call,
+// Args its arguments), or made in a module helper the host calls (Site is the host's call of the helper and Args
+// are the host's values of the helper parameters the inner call passes on; nil where it passes something else).
+type effCall struct {
+	Site  *ssa.Call
+	Inner *ssa.Call
+	Args  []ssa.Value
+}
+
+func effectiveCalls(fn *ssa.Function, id string, depth int) []effCall {
+	var out []effCall
+	for _, b := range fn.Blocks {
+		for _, in := range b.Instrs {
+			call, ok := in.(*ssa.Call)
+			if !ok {
+				continue
+			}
+			if core.StaticCalleeID(call) == id {
+				out = append(out, effCall{call, call, call.Call.Args})
+				continue
+			}
+			h := call.Call.StaticCallee()
+			if h == nil || depth <= 0 || len(h.Blocks) == 0 || !core.IsModPath(core.FuncPkgPath(h)) || h == fn {
+				continue
+			}
+			for _, ec := range effectiveCalls(h, id, depth-1) {
+				args := make([]ssa.Value, len(ec.Args))
+				for i, a := range ec.Args {
+					for k, prm := range h.Params {
+						if a == ssa.Value(prm) && k < len(call.Call.Args) {
+							args[i] = call.Call.Args[k]
+						}
+					}
+				}
+				out = append(out, effCall{call, ec.Inner, args})
+			}
+		}
+	}
+	return out
+}
+
 func extractOf(t ssa.Value, idx int) ssa.Value {
 	refs := t.Referrers()
 	if refs == nil {
